@@ -6,6 +6,8 @@ import (
 	"encoding/json"
 	"fmt"
 	"os"
+	"sync"
+	"sync/atomic"
 	"testing"
 
 	"github.com/piotrnar/gocoin/lib/btc"
@@ -131,6 +133,7 @@ type summary struct {
 	abortedMidway                                       bool
 	dataCuts, readBeyond4G                              int
 	addsAfterCutThenReopen                              bool
+	concWindows, concReads, concReadsDisk               int
 }
 
 type runner struct {
@@ -404,6 +407,123 @@ func (r *runner) checkLength(b *mblk, decode bool) error {
 	return fmt.Errorf("BlockLength(block #%d, decode=%v) = %d, block has %d bytes (written=%v, %d on disk)", r.serial(b), decode, l, len(b.raw), b.written, b.stored)
 }
 
+// concRead: the client's network and RPC goroutines read blocks (BlockGet / BlockGetInternal / BlockLength) while
+// its main goroutine - the only writer - adds blocks and flushes the queue.  Three reader goroutines go round the
+// newest stored blocks (some still queued, some written; with a cache of 1..8 blocks most reads go to the disk)
+// while this goroutine does what the main loop does: o.N adds, Idle after every third one.  Nothing the writer
+// does in the window touches the blocks that are read, so every read must return exactly the stored bytes and
+// the trusted flag; a block whose data file leaves the retention window during the window is not judged.
+func (r *runner) concRead(o op) error {
+	set := r.live(func(b *mblk) bool { return !b.gone && r.byHash[b.hash.Hash] == b })
+	if len(set) == 0 {
+		return nil
+	}
+	if len(set) > 24 {
+		set = set[len(set)-24:]
+	}
+	type bad struct {
+		b   *mblk
+		msg string
+	}
+	const readers = 3
+	var stop atomic.Bool
+	var wg sync.WaitGroup
+	var started sync.WaitGroup
+	bads := make([][]bad, readers)
+	counts := make([]int, readers)
+	db := r.db
+	for g := 0; g < readers; g++ {
+		wg.Add(1)
+		started.Add(1)
+		go func(g int) {
+			defer wg.Done()
+			defer func() {
+				if x := recover(); x != nil {
+					bads[g] = append(bads[g], bad{nil, fmt.Sprintf("a reading goroutine panicked: %v", x)})
+				}
+			}()
+			first := true
+			for i := g * 7; len(bads[g]) < 3; i++ {
+				if !first && stop.Load() {
+					break
+				}
+				b := set[i%len(set)]
+				switch (i/len(set) + g) % 3 {
+				case 0, 1:
+					var data []byte
+					var tr bool
+					var e error
+					if (i/len(set)+g)%3 == 0 {
+						data, tr, e = db.BlockGet(b.hash)
+					} else {
+						var rec *chain.BlckCachRec
+						rec, tr, e = db.BlockGetInternal(b.hash, true)
+						if rec != nil {
+							data = rec.Data
+						}
+					}
+					if e != nil {
+						bads[g] = append(bads[g], bad{b, fmt.Sprintf("cannot be read back by a concurrent reader: %v", e)})
+					} else if !bytes.Equal(data, b.raw) {
+						bads[g] = append(bads[g], bad{b, fmt.Sprintf("reads back different in a concurrent reader: got %d bytes, first difference at %d", len(data), firstDiff(data, b.raw))})
+					} else if tr != b.trusted {
+						bads[g] = append(bads[g], bad{b, fmt.Sprintf("reads back with trusted=%v in a concurrent reader, expected %v", tr, b.trusted)})
+					}
+				case 2:
+					l, e := db.BlockLength(b.hash, true)
+					if e != nil {
+						bads[g] = append(bads[g], bad{b, fmt.Sprintf("BlockLength in a concurrent reader: %v", e)})
+					} else if l != uint32(len(b.raw)) {
+						bads[g] = append(bads[g], bad{b, fmt.Sprintf("BlockLength(decode) in a concurrent reader = %d", l)})
+					}
+				}
+				counts[g]++
+				if first {
+					first = false
+					started.Done()
+				}
+			}
+			if first {
+				started.Done()
+			}
+		}(g)
+	}
+	started.Wait() // every reader has completed one read: the window is open
+	for i := 0; i < o.N; i++ {
+		s := blkSpec{Kind: kinds[(o.I+i)%len(kinds)], Size: 81 + ((o.I+i)*7919)%6000, Seed: uint64(o.I)*31 + uint64(i), Height: uint32(i), Txs: uint32(i % 5)}
+		r.add(&s, i%4 == 0)
+		if i%3 == 2 {
+			r.db.Idle()
+			r.mFlush()
+		}
+	}
+	r.db.Idle()
+	r.mFlush()
+	stop.Store(true)
+	wg.Wait()
+	r.sum.concWindows++
+	for g := range counts {
+		r.sum.concReads += counts[g]
+	}
+	for _, b := range set {
+		if b.written && !b.gone {
+			r.sum.concReadsDisk++
+		}
+	}
+	for g := range bads {
+		for _, x := range bads[g] {
+			if x.b == nil {
+				return fmt.Errorf("%s", x.msg)
+			}
+			if x.b.gone {
+				continue // its data file left the retention window while it was being read
+			}
+			return fmt.Errorf("block #%d (%d bytes) %s (the main goroutine was adding %d blocks and flushing the queue meanwhile)", r.serial(x.b), len(x.b.raw), x.msg, o.N)
+		}
+	}
+	return nil
+}
+
 func (r *runner) sweep() error {
 	r.sum.sweepCnt++
 	for _, b := range r.blocks {
@@ -618,6 +738,8 @@ func (r *runner) do(o op) error {
 	case "idle":
 		r.db.Idle()
 		r.mFlush()
+	case "concread":
+		return r.concRead(o)
 	case "reopen":
 		if o.DBlocks > 0 {
 			if err := r.dataCut(o.DBlocks, o.DKeep); err != nil {
@@ -1046,7 +1168,7 @@ func genSpec(t *rapid.T, thorough bool) *blkSpec {
 var opWeights = []struct {
 	op string
 	w  int
-}{{"add", 300}, {"readd", 50}, {"getnc", 50}, {"getunknown", 15}, {"length", 60}, {"burst", 2}, {"bigburst", 2}, {"trust", 60}, {"trustinv", 25}, {"readdinv", 25}, {"invalid", 40}, {"invalidlast", 30}, {"invalidtail", 20}, {"twin", 15}, {"idle", 100}, {"reopen", 80}, {"abortedreopen", 25}, {"get", 150}}
+}{{"add", 300}, {"readd", 50}, {"getnc", 50}, {"getunknown", 15}, {"length", 60}, {"burst", 2}, {"bigburst", 2}, {"trust", 60}, {"trustinv", 25}, {"readdinv", 25}, {"invalid", 40}, {"invalidlast", 30}, {"invalidtail", 20}, {"twin", 15}, {"idle", 100}, {"concread", 40}, {"reopen", 80}, {"abortedreopen", 25}, {"get", 150}}
 
 func genOp(t *rapid.T, thorough bool) op {
 	tot := 0
@@ -1121,6 +1243,9 @@ func genOp(t *rapid.T, thorough bool) op {
 			o.DKeep = rapid.IntRange(0, 70000).Draw(t, "dkeep")
 		}
 	case "idle":
+	case "concread":
+		o.I = rapid.IntRange(0, 1<<20).Draw(t, "i")
+		o.N = 1 + uni(t, "n", 12)
 	default:
 		o.I = rapid.IntRange(0, 1<<20).Draw(t, "i")
 	}
@@ -1229,6 +1354,13 @@ func TestBlockDBModel(t *testing.T) {
 		if sum.twins > 0 {
 			r.Class("twin_after_queued_invalid")
 		}
+		if sum.concWindows > 0 {
+			r.Class("concurrent_readers")
+		}
+		if sum.concReadsDisk > 0 {
+			r.Class("concurrent_readers_of_written_blocks")
+		}
+		pbt.AddExtra("concurrent_reads_checked", int64(sum.concReads))
 		if sum.byteFlush {
 			r.Class("flush_by_16MiB")
 		}
